@@ -296,7 +296,7 @@ spec fn added_utxo_at(ub: &UnstableBlocks, s: Seq<OutPoint>, i: int) -> Utxo {
     Utxo { outpoint: s[i], value: value_spec(ub, s[i]), height: height_spec(ub, s[i]) }
 }
 impl<'a> AddressUtxoSet<'a> {
-//@extract file=canister/src/address_utxoset.rs in="impl<'a> AddressUtxoSet<'a>" item="fn apply_block" props=C01
+//@extract file=canister/src/address_utxoset.rs in="impl<'a> AddressUtxoSet<'a>" item="fn apply_block" props=C01,C05
 //@ rewrite R10 "\.unwrap_or_else\(\|\| \{\s*vp_trap\(\);\s*\}\)" => ".unwrap()"
 //@ spec
 //@| requires cache_lists_have_tx_outs(old(self).unstable_blocks),
@@ -440,7 +440,7 @@ fn get_utxos_from_chain(state: &State, address: &str, min_confirmations: u32, ch
     -> (r: Result<(GetUtxosResponseFull, Stats), GetUtxosErrorFull>)
     ensures r == from_chain_spec(state, address, min_confirmations, chain@, offset, utxo_limit),
 { unimplemented!() }
-//@extract file=canister/src/api/get_utxos.rs item="fn get_utxos_internal" props=C06,C01,C02
+//@extract file=canister/src/api/get_utxos.rs item="fn get_utxos_internal" props=C06,C01,C02,C05
 //@ ret r
 //@ rewrite R3 "GetUtxosError" => "GetUtxosErrorFull"
 //@ sigrewrite R3 "GetUtxosError" => "GetUtxosErrorFull"
@@ -505,7 +505,7 @@ fn vp_bytebuf_opt(p: Option<Vec<u8>>) -> (r: Option<ByteBuf>)
     ensures r.is_some() == p.is_some(), r matches Some(b) ==> b.bytes@ == p.unwrap()@,
 { unimplemented!() }
 
-//@extract file=canister/src/api/get_utxos.rs item="fn get_utxos_from_chain" props=C01,C04,C06,C02 rename=get_utxos_from_chain_whole
+//@extract file=canister/src/api/get_utxos.rs item="fn get_utxos_from_chain" props=C01,C04,C05,C06,C02 rename=get_utxos_from_chain_whole
 //@ ret r
 //@ sigrewrite R3 "GetUtxosError" => "GetUtxosErrorFull"
 //@ sigrewrite R3 "GetUtxosResponse" => "GetUtxosResponseFull"
@@ -729,7 +729,7 @@ impl UtxoSet {
     #[verifier::external_body]
     fn get_utxo(&self, outpoint: &OutPoint) -> (r: Option<(TxOut, Height)>) ensures r == stable_utxo_spec(self, *outpoint) { unimplemented!() }
 }
-//@slice file=canister/src/address_utxoset.rs in="impl<'a> AddressUtxoSet<'a>" item="fn into_iter" block_after=".map(move |outpoint| {" props=C01
+//@slice file=canister/src/address_utxoset.rs in="impl<'a> AddressUtxoSet<'a>" item="fn into_iter" block_after=".map(move |outpoint| {" props=C01,C05
 //@ rewrite R10 "\.unwrap_or_else\(\|\| \{\s*vp_trap\(\);\s*\}\)" => ".unwrap()"
 //@ head
 //@| // R8 slice: the closure that looks a stable outpoint up in the stable UTXO set
